@@ -166,7 +166,13 @@ def load_known():
         out += json.loads(f.read_text())
     for g in sorted((ROOT / "known").glob("*.json")):
         out += json.loads(g.read_text())
-    return out
+    seen, uniq = set(), []
+    for e in out:  # known_findings.json is the merged list; known/*.json are its per-property sources
+        if e.get("id") in seen:
+            continue
+        seen.add(e.get("id"))
+        uniq.append(e)
+    return uniq
 
 
 def match_known(prop, fam, case, verdict, known):
